@@ -150,8 +150,8 @@ class Check:
                             self.log(out[-1500:])
                             return False, log
                     dir_newest = max(dir_newest, os.path.getmtime(vo))
-                if sd == "Lib":
-                    newest_dep = dir_newest
+                # later directories in the list may depend on earlier ones (e.g. C03 on C02, C19 on C12)
+                newest_dep = max(newest_dep, dir_newest)
             return True, log
         finally:
             fcntl.flock(lock, fcntl.LOCK_UN)
